@@ -363,6 +363,8 @@ const KERNELS: &[Kernel] = &[
             ("create_function_call_trivia", "Definition create_function_call_trivia (space_after_function_names : SpaceAfterFunctionNames) : WsToken :="),
             ("should_omit_string_parens", "Definition should_omit_string_parens (no_call_parentheses : bool) (call_parentheses : CallParenType) : bool :="),
             ("should_omit_table_parens", "Definition should_omit_table_parens (no_call_parentheses : bool) (call_parentheses : CallParenType) : bool :="),
+            ("should_collapse_simple_functions", "Definition should_collapse_simple_functions (collapse_simple_statement : CollapseSimpleStatement) : bool :="),
+            ("should_collapse_simple_conditionals", "Definition should_collapse_simple_conditionals (collapse_simple_statement : CollapseSimpleStatement) : bool :="),
         ],
         module: "CtxOptions",
         mirror: "FmAst",
